@@ -384,6 +384,54 @@ def run(case):
             load = fem.SolidBodyCauchyStress(fb, cauchy_stress=S)
         fd_check(c, "K", [body, load], field, 2e-5 * hm)
         fd_check(c, "K-load-only", [load], field, 2e-5 * hm)
+        if case["item"] == "pressure" and case["face"] == "one" and case["mag"] == 0.7:
+            # call histories on ONE pressure item: every sequence (depth <= 2) over {vector, matrix} x {field at state A, field
+            # at state B, no field} x {pressure argument or not} + update(): every returned vector / matrix must be
+            # (current pressure) x (unit-pressure vector / matrix of a fresh item at the last state the item was given)
+            UA = field.fields[0].values.copy()
+            UB = UA + 0.3 * hm * zoo.offarr(seed, 1010, UA.shape)
+            ref = {}
+            for nm, U in (("A", UA), ("B", UB), ("0", 0 * UA)):  # "0": a new boundary field is undeformed until it is given the main field
+                field.fields[0].values[:] = U
+                rb_, fb_ = boundary_field(case["mesh"], mesh, case["fk"], field, mask)
+                one = fem.SolidBodyPressure(fb_, pressure=1.0)
+                ref[nm] = (one.assemble.vector(field).toarray(), fem.SolidBodyPressure(fb_, pressure=1.0).assemble.matrix(field).toarray())
+            ops = [(w, X, q) for w in ("vector", "matrix") for X in ("A", "B", None) for q in (None, 2.5)] + [("update", None, -0.4)]
+            nh = 0
+            for depth in (1, 2):
+                for seq in itertools.product(range(len(ops)), repeat=depth):
+                    field.fields[0].values[:] = UA
+                    rb_, fb_ = boundary_field(case["mesh"], mesh, case["fk"], field, mask)
+                    item = fem.SolidBodyPressure(fb_, pressure=0.7)
+                    pcur, xcur = 0.7, "0"
+                    for step, k in enumerate(seq):
+                        w, X, q = ops[k]
+                        lab = "history=" + " > ".join(f"{ops[i][0]}({'field@' + ops[i][1] if ops[i][1] else ''}{',' if ops[i][1] and ops[i][2] is not None else ''}{'pressure=' + str(ops[i][2]) if ops[i][2] is not None else ''})" for i in seq[: step + 1])
+                        if w == "update":
+                            item.update(q)
+                            pcur = q
+                            # (update re-extracts the kinematics of the boundary field, which follows the main field it was
+                            #  last given)
+                            continue
+                        args = {}
+                        if X is not None:
+                            field.fields[0].values[:] = UA if X == "A" else UB
+                            args["field"] = field
+                            xcur = X
+                        if q is not None:
+                            args["pressure"] = q
+                            pcur = q
+                        got = getattr(item.assemble, w)(**args).toarray()
+                        c.trans += 1
+                        want = pcur * ref[xcur][0 if w == "vector" else 1]
+                        sc = max(np.abs(ref[xcur][0 if w == "vector" else 1]).max() * max(abs(pcur), 1.0), 1e-12)
+                        if got.shape != want.shape or np.abs(got - want).max() > 1e-12 * sc:
+                            c.bad(lab, f"{w} returned after this call history on one pressure item differs from (current pressure) x (unit-pressure {w} of a fresh item at the last given state)", float(np.abs(got - want).max() / sc) if got.shape == want.shape else list(got.shape), 0, 1e-12)
+                            break
+                    nh += 1
+            c.traces += nh
+            c.outcomes.add(f"pressure-item-histories={nh}")
+            field.fields[0].values[:] = UA
         c.outcomes.add(f"faces={rb.mesh.ncells}")
         return c.result(dict(case=case["key"], unknowns=int(values_of(field).size), boundary_cells=int(rb.mesh.ncells)))
     if kind == "mpc":
